@@ -10,18 +10,11 @@ from lib.vlib import ROOT, Check, check_props, coq_eval_many, coq_make, coq_resu
 
 PID = 'C08'
 WIDTHS = [1, 20, 40, 80, 100, 200]
-CLASS_ID = {'K1': 'C08-K1-commutative-shortcut', 'K2': 'C08-K2-unary-under-unary', 'K3': 'C08-K3-concat-precedence',
-            'K4': 'C08-K4-string-quote', 'K5': 'C08-K5-int-2147483648', 'K6': 'C08-K6-field-access-before-less-than',
-            'K7': 'C08-K7-import-sorting-rebinds-name'}
-WITNESS = {
-    'K1': 'class Main {\n  function main(): int = a * (b / c)\n}\n',
-    'K2': 'class Main {\n  function main(): bool = !(!x)\n}\n',
-    'K3': 'class Main {\n  function main(): Str = (a + b) :: c\n}\n',
-    'K4': 'class Main {\n  function main(): Str = "say \\"hi\\""\n}\n',
-    'K5': 'class Main {\n  function main(): int = 1 + 2147483648\n}\n',
-    'K6': 'class Main {\n  function main(): bool = (a.b) < c\n}\n',
-    'K7': 'import { Foo } from b.B\nimport { Foo } from a.A\nclass Main {\n  function main(x: Foo): unit = {  }\n}\n',
-}
+# OPEN classes (status open in known_findings.json) and the decidable predicate that puts a failure into them:
+#   K1, K3: gen.exprs.node_classes on the expression that contains the difference (twin of k1 / k3 of C08/Model.v)
+#   K7    : import_rebinding(text) and the difference is the module a name resolves to
+# Everything else - in particular the repaired K2, K4, K5, K6 - is a plain property failure.
+CLASS_ID = {'K1': 'C08-K1-commutative-shortcut', 'K3': 'C08-K3-concat-precedence', 'K7': 'C08-K7-import-sorting-rebinds-name'}
 HEADER = ('From Coq Require Import List Arith Bool NArith. Import ListNotations.\n'
           'From SV Require Import C08.Syntax C08.Model C08.Layout C08.Lit C08.Corr.\n')
 
@@ -184,50 +177,69 @@ def layer_b_exprs(ck, rng, table, n_random, all_triples):
         ck.sample({'tree': exprs.g_expr(cases[-1][0]), 'printed': cases[-1][4]['text']})
 
 
+def valid_raw(r):
+    """twin of C08.Lit.walk r false = Some false: the interior of a literal the lexer accepts"""
+    odd = False
+    for ch in r:
+        if ch == '"':
+            if not odd:
+                return False
+            odd = False
+        elif ch == '\n':
+            return False
+        else:
+            odd = (not odd) if ch == '\\' else False
+    return not odd
+
+
 def layer_b_literals(ck, rng, n):
     alphabet = ['a', 'b', ' ', '\\', '\\', '"', '"', 'n', 't', 'é', '`', '$', '{']
-    vals = ['', '"', '\\"', 'a"b', 'a\\\\', 'a\\\\"', '\\\\\\"x', 'plain', 'tab\\t']
+    raws = ['', '\\"', 'a\\"b', 'a\\\\', '\\\\\\"x', 'plain', 'tab\\t', 'say \\"hi\\"', '\\"\\"']
     for _ in range(n):
-        vals.append(''.join(rng.pick(alphabet) for _ in range(rng.below(8))))
-    # values the parser can produce have no newline; a trailing odd run of backslashes cannot come from a literal either
-    res = run_vh('lit', [{'id': i, 'str': v} for i, v in enumerate(vals)])
+        raws.append(''.join(rng.pick(alphabet) for _ in range(rng.below(9))))
+    vals = []                                  # (value, is it the value of an accepted literal, that literal's interior)
+    for r in raws:
+        if valid_raw(r):
+            vals.append((r.replace('\\"', '"'), True, r))
+        else:
+            vals.append((r, False, None))     # arbitrary value: only model vs implementation is compared
+    res = run_vh('lit', [{'id': i, 'str': v} for i, (v, _, _) in enumerate(vals)])
     cases = []
-    for v, r in zip(vals, res):
+    for (v, ok, raw), r in zip(vals, res):
         if 'str_panic' in r:
             ck.property_failure('printer panicked on a string literal', {'value': v}, observed=r['str_panic'])
             continue
         toks = r['str_tokens']
         printed = r['str_printed']
-        # what the real lexer makes of the printed text: first token if it is a string
         lexed = None
         if toks and toks[0][0] == 'string':
             t = toks[0][1]
             lexed = (t[1:-1], printed[len(t):])
-        cases.append((v, lexed, printed))
+        cases.append((v, lexed, printed, ok, raw))
         ck.case({'string': v}, nontrivial='"' in v or '\\' in v)
     ck.count('string values', len(cases))
-    ck.count('string values with a quote (K4)', sum(1 for v, _, _ in cases if '"' in v))
+    ck.count('string values of accepted literals', sum(1 for c in cases if c[3]))
+    ck.count('string values with a quote', sum(1 for c in cases if '"' in c[0]))
 
     def render_case(c):
-        v, lexed, _ = c
+        v, lexed = c[0], c[1]
         return '(%s, %s)' % (g_codepoints(v), 'None' if lexed is None else '(Some (%s, %s))' % (g_codepoints(lexed[0]), g_codepoints(lexed[1])))
-    # the model works on the printed text alone; the real lexer skips blanks before the next token, so compare only
-    # values whose printed rest does not start with a blank
     usable = [c for c in cases if not (c[1] and c[1][1][:1] in (' ', '\t'))]
     fails, _, errors = eval_fails('lit', shard(usable, 4), 'str_case', render_case, 'str_fails')
     for e in errors:
         ck.obligation('model-evaluation (string literals)', False, e)
     for idx in sorted(fails)[:3]:
-        v, lexed, printed = usable[idx]
+        v, lexed, printed = usable[idx][:3]
         ck.disagree('C08.Lit.lex_str (print_str s) (model) vs real printer + lexer', {'value': v}, 'see C08/Lit.v', {'printed': printed, 'lexed': lexed})
-    # theorem instances on the implementation: round trip iff no quote
-    for v, lexed, printed in cases:
-        ok = lexed is not None and lexed[1] == '' and lexed[0].replace('\\"', '"') == v
-        trailing = len(v) - len(v.rstrip('\\'))
-        if '"' not in v and trailing % 2 == 0 and not ok:
-            ck.disagree('C08_string_roundtrip instance', {'value': v}, 'read back unchanged', {'printed': printed, 'lexed': lexed})
-        if '"' in v and ok:
-            ck.disagree('C08_string_quote_never_roundtrips instance', {'value': v}, 'not read back', {'printed': printed, 'lexed': lexed})
+    # theorem instances on the implementation: every value of an accepted literal is printed as the text that was read
+    # and is read back unchanged
+    for v, lexed, printed, ok, raw in cases:
+        if not ok:
+            continue
+        back = lexed is not None and lexed[1] == '' and lexed[0].replace('\\"', '"') == v
+        if not back or printed != '"%s"' % raw:
+            ck.property_failure('string literal value is not read back after printing', {'value': v, 'literal': '"%s"' % raw},
+                                expected='"%s"' % raw, observed={'printed': printed, 'lexed': lexed})
     # int literals through the real lexer + parser + printer
     srcs = ['0', '7', '2147483647', '-2147483648', '- 2147483648', '1 - 2147483647', 'f(2147483647)', '-(2147483647)',
             '1 + 2147483648', 'f(2147483648)', '-  /* c */ 2147483648', '2147483648', '2147483649', '99999999999999999999']
@@ -238,25 +250,46 @@ def layer_b_literals(ck, rng, n):
         if r.get('src_errors', 1) != 0:
             ck.count('int literal sources rejected by the gate')
             continue
-        (_, toks2, _) = (None, None, None)
+        ck.count('int literal sources accepted')
+        if any(t == '2147483648' for t in ints_in):
+            ck.property_failure('the literal 2147483648 is accepted where it does not follow `-`', {'source': s}, 'syntax error', ints_in)
         printed = r['src_printed']
         ints_out = [t[1] for t in run_vh('lit', [{'id': 0, 'src': printed}])[0].get('src_tokens', []) if t[0] == 'int']
-        k5 = any(t == '2147483648' for t in ints_in)
         if ints_in != ints_out:
-            if k5:
-                ck.count('K5 sources (2147483648 accepted, re-printed as 0)')
-                report(ck, 'K5', 'int literal text changed by formatting', {'source': s}, ints_in, ints_out)
-            else:
-                ck.property_failure('int literal text changed by formatting', {'source': s}, ints_in, ints_out)
-        elif k5:
-            ck.notes.append('K5 source %r no longer changes' % s)
+            ck.property_failure('int literal text changed by formatting', {'source': s}, ints_in, ints_out)
 
 
 def report(ck, cls, what, input_, expected=None, observed=None):
-    kid = CLASS_ID[cls]
-    registered = any(k['id'] == kid for k in ck.known)
-    ck.property_failure('[%s] %s' % (kid, what), input_, expected, observed, how='./check C08 --replay <this file>',
-                        klass=kid if registered else None)
+    """a failure that the class predicate puts into OPEN class `cls` (None: plain failure)"""
+    kid = CLASS_ID.get(cls)
+    is_open = kid is not None and any(k['id'] == kid and k['status'] == 'open' for k in ck.known)
+    ck.property_failure(('[%s] ' % kid if is_open else '') + what, input_, expected, observed, how='./check C08 --replay <this file>',
+                        klass=kid if is_open else None)
+
+
+def module_fails(r):
+    """does formatting change the module of result r (one width)?  -> (bool, detail)"""
+    if r.get('errors', 0) > 0 or not r.get('out'):
+        return False, 'the witness is no longer a syntactically valid input (%s)' % r.get('messages', '')[:80].replace('\n', ' ')
+    o = r['out'][0]
+    if o.get('reparse_errors', 0) > 0:
+        return True, 'output has syntax errors'
+    if not o.get('same_tree', True):
+        return True, 'output parses to a different tree: ' + json.dumps(o.get('diff'))[:160]
+    if not o.get('literals_same', True):
+        return True, 'literal text changed: ' + json.dumps(o.get('literal_diff'))[:160]
+    return False, 'formatting preserves the witness'
+
+
+def replay_witnesses(ck):
+    """every registered finding: replay its corpus witness (open: KNOWN-FINDING while it fails; fixed: must not be back)"""
+    todo = [k for k in ck.known if k.get('witness') and os.path.exists(os.path.join(ROOT, k['witness']))]
+    res = run_vh('module', [{'id': k['id'], 'text': open(os.path.join(ROOT, k['witness'])).read(), 'widths': [100], 'return_dump': True}
+                            for k in todo]) if todo else []
+    for k, r in zip(todo, res):
+        still, detail = module_fails(r)
+        ck.known_witness(k['id'], still, detail)
+        ck.count('witness %s (%s): %s' % (k['id'], k['status'], 'fails' if still else 'passes'))
 
 
 # ----------------------------------------------------------------------------------------------------------------------
@@ -317,8 +350,6 @@ def monitor_modules(ck, table, mods, tag, typecheck=False):
             continue
         nvalid += 1
         classes = exprs.tree_classes(table, r['dump'])
-        if any(l == ['int', '2147483648'] for l in r.get('literals', [])):
-            classes.add('K5')
         if import_rebinding(text):
             classes.add('K7')
         ck.count(tag + ': syntactically valid')
@@ -333,18 +364,17 @@ def monitor_modules(ck, table, mods, tag, typecheck=False):
                 problem = 'formatter or parser panicked on formatter input/output: ' + str(o.get('print_panic') or o.get('reparse_panic'))[:200]
             elif o['reparse_errors'] > 0:
                 problem = 'formatted output has syntax errors: ' + o.get('reparse_messages', '')[:200]
-                cls = next((c for c in ('K2', 'K4', 'K6') if c in classes), None)
+                cls = None          # no open class makes the output unparsable
             elif not o['same_tree']:
                 problem = 'formatted output parses to a different tree at %s: %s -> %s' % (
                     o['diff']['path'], json.dumps(o['diff']['before'])[:120], json.dumps(o['diff']['after'])[:120])
                 local = local_classes(table, r['dump'], o['diff']['path'])
-                cls = next((c for c in ('K1', 'K3', 'K4', 'K2', 'K6') if c in local), None)
+                cls = next((c for c in ('K1', 'K3') if c in local), None)
                 if cls is None and 'K7' in classes and isinstance(o['diff']['before'], str) and isinstance(o['diff']['after'], str) \
                         and o['diff']['path'].split('/')[-1] == '1':
                     cls = 'K7'
             elif not o['literals_same']:
                 problem = 'literal text changed: %s' % json.dumps(o.get('literal_diff'))[:200]
-                cls = 'K5' if 'K5' in classes else ('K4' if 'K4' in classes else None)
             elif typecheck and not o.get('typecheck_same', True):
                 problem = 'type-check verdict changed: %s' % json.dumps(o.get('typecheck'))[:300]
             if problem:
@@ -450,20 +480,8 @@ def run(tier, seed, replay=None):
     layer_b_exprs(ck, rng.fork(), table, 1100 if quick else 27000, all_triples=not quick)
     layer_b_literals(ck, rng.fork(), 200 if quick else 3000)
 
-    # ---- per-class witnesses
-    res = run_vh('module', [{'id': k, 'text': t, 'widths': [100], 'return_dump': True} for k, t in WITNESS.items()])
-    for (k, text), r in zip(WITNESS.items(), res):
-        o = r['out'][0] if r.get('out') else {}
-        still = bool(o) and (o.get('reparse_errors', 0) > 0 or not o.get('same_tree', True) or not o.get('literals_same', True))
-        kid = CLASS_ID[k]
-        if any(kk['id'] == kid for kk in ck.known):
-            ck.known_witness(kid, still, 'witness module for ' + k)
-        elif still:
-            report(ck, k, 'witness of class %s: formatting changes the program (%s)' % (
-                k, 'output has syntax errors' if o.get('reparse_errors') else json.dumps(o.get('diff') or o.get('literal_diff'))[:200]),
-                {'module': text, 'width': 100})
-        else:
-            ck.notes.append('class %s witness no longer fails' % k)
+    # ---- witnesses of the registered findings
+    replay_witnesses(ck)
 
     # ---- layer C
     nmod = 300 if quick else 3000
